@@ -101,26 +101,30 @@ def _measure(shape_t, svc, n_env, warm_t):
 
 
 def _width_job(job):
-    kind, svc = job
+    kind, svc = job[:2]
+    widths = job[2] if len(job) > 2 else WIDTHS
     costs = []
-    for k in WIDTHS:
+    for k in widths:
         c, why = _measure(_wide(kind, k), svc, 0, _wide(kind, 4))
         if c is None:
             return ("width", kind, svc, "unsupported", why)
         costs.append(c)
     # marginal cost per operand between 16 and 32, and between 128 and 256 operands
-    m1, m2 = (costs[1] - costs[0]) / 16.0, (costs[3] - costs[2]) / 128.0
+    m1, m2 = (costs[1] - costs[0]) / float(widths[1] - widths[0]), (costs[3] - costs[2]) / float(widths[3] - widths[2])
     if m2 > 1.3 * m1 + 2:
         return ("width", kind, svc, "bad", costs)
     return ("width", kind, svc, "ok", costs)
 
 
-def _env_job(svc):
+def _env_job(svc, envs=None):
+    if isinstance(svc, tuple):
+        svc, envs = svc
+    envs = envs or ENVS
     t = ("And", ("Or", S("a"), ("LT", S("x", INT), S("y", INT))), ("forall", [("b", BOOL)], ("Or", S("b"), S("a"))))
     if svc == "cnf":
         t = ("And", ("Or", S("a"), ("LT", S("x", INT), S("y", INT))), ("Iff", S("b"), ("Or", S("b"), S("a"))))
     costs = []
-    for n in ENVS:
+    for n in envs:
         c, why = _measure(t, svc, n, t)
         if c is None:
             return ("env", "", svc, "unsupported", why)
@@ -135,22 +139,26 @@ def run(ctx):
         return
     rs = ctx.rule("R5", "cost of the services: linear in the width of a node, independent of unrelated symbols of the environment")
     sv = sorted(services())
-    jobs = [(k, s) for k in KINDS for s in sv if not (s in BOOL_ONLY and False)]
-    res = parallel_map(_width_job, jobs) + parallel_map(_env_job, sv)
+    widths, envs = WIDTHS, ENVS
+    if ctx.tier == "thorough":
+        widths, envs = (16, 32, 512, 1024), (0, 100, 400)
+    jobs = [(k, s, widths) for k in KINDS for s in sv]
+    res = parallel_map(_width_job, jobs) + parallel_map(_env_job, [(s, envs) for s in sv])
+    rs.notes.append("widths %s, environments with %s unrelated symbols" % (list(widths), list(envs)))
     for what, kind, svc, verdict, data in res:
         if verdict == "unsupported":
             rs.unrec("%s %s %s: %s" % (what, kind, svc, data))
         elif what == "width":
             if verdict == "ok":
-                rs.ok({"service": svc, "node": kind, "widths": list(WIDTHS), "cost": data})
+                rs.ok({"service": svc, "node": kind, "widths": list(widths), "cost": data})
             else:
                 ctx.finding(rs, "width|%s|%s" % (svc, kind), "%s on one %s node of %s operands costs %s: the cost per further operand grows "
                             "with the width (%.0f between 16 and 32 operands, %.0f between 128 and 256) - the operands of one node are handled "
                             "an unbounded number of times" % (svc, kind, list(WIDTHS), data, (data[1] - data[0]) / 16.0, (data[3] - data[2]) / 128.0), "pysmt/")
         else:
             if verdict == "ok":
-                rs.ok({"service": svc, "unrelated_symbols": list(ENVS), "cost": data})
+                rs.ok({"service": svc, "unrelated_symbols": list(envs), "cost": data})
             else:
                 ctx.finding(rs, "environment|%s" % svc, "%s on a 9-node formula costs %s in environments holding %s unrelated symbols: "
-                            "every call pays for the whole environment" % (svc, data, list(ENVS)), "pysmt/")
+                            "every call pays for the whole environment" % (svc, data, list(envs)), "pysmt/")
     ctx.floor(rs, 40)
